@@ -57,6 +57,12 @@ var c18slices = []c18slice{
 	{"<int64,string>", []reflect.Type{tInt64, tString}, 1, 5},
 	{"<int32,int32>", []reflect.Type{tInt32, tInt32}, 1, 2},
 	{"<string,string>/2", []reflect.Type{tString, tString}, 2, 2},
+	// key prefixes whose later key columns cannot be hashed or compared
+	{"<int,[]int,int64>/2", []reflect.Type{tInt, tInts, tInt64}, 2, 2},
+	{"<int,plain,int>/2", []reflect.Type{tInt, tPlain, tInt}, 2, 3},
+	{"<string,string,[]string>/3", []reflect.Type{tString, tString, tStrings}, 3, 2},
+	{"<int,string,int64>/3", []reflect.Type{tInt, tString, tInt64}, 3, 2},
+	{"<[]int,int,int>/2", []reflect.Type{tInts, tInt, tInt}, 2, 2},
 }
 
 func (s c18slice) build() bigslice.Slice {
